@@ -20,7 +20,7 @@ from geometry_tools.automata import fsa as fsa_mod
 from geometry_tools.automata.fsa import FSA, FSAException
 
 FOREIGN = "z"
-ROUTES = ["dict", "alt", "incr", "incr_elist", "copy"]
+ROUTES = ["dict", "alt", "alt_hidden", "incr", "incr_elist", "copy", "dict_hidden"]
 
 RULE = ("cases: a deterministic automaton (1-10 states, 1-3 single-letter labels, edge density "
         "0.25-1, one start state; states without outgoing edges optionally left out of the "
@@ -82,6 +82,10 @@ def build(m, route):
         return FSA(d, start_vertices=start)
     if route == "alt":
         return FSA(M.model_to_alt_dict(m), start_vertices=start, graph_dict=False)
+    if route == "alt_hidden":
+        # the target -> labels format with dead ends that are somebody's target left out
+        d = {v: nb for v, nb in M.model_to_alt_dict(m).items() if nb or not m.nbrs_in(v)}
+        return FSA(d, start_vertices=start, graph_dict=False)
     if route == "incr":
         A = FSA(start_vertices=start)
         A.add_vertices(list(m.verts))
@@ -792,7 +796,7 @@ def body_small(case, ctx):
     m = model_of(case)
     classify(m, ctx)
     n = len(m.verts)
-    routes = ["dict", "alt", "incr", "incr_elist", "dict_hidden"]
+    routes = ["dict", "alt", "incr", "incr_elist", "dict_hidden", "alt_hidden"]
     route = routes[(sum(len(nb) for _, nb in case["graph"]) + case["start"]) % len(routes)]
     ctx.label("route=" + route)
     alphabet = m.labels() + [FOREIGN]
